@@ -54,6 +54,25 @@ static void* child_detached(void* a) {
   return NULL;
 }
 
+// a legitimate history that leaves traces in the fiber: a blocking read ended by another fiber closing the descriptor
+static void* rt_closer(void* a) {
+  usleep(1500);
+  close((int)(intptr_t)a);
+  return NULL;
+}
+static void interrupted_read(fb_slot_t* s) {
+  int sv[2];
+  if (socketpair(AF_UNIX, SOCK_STREAM, 0, sv)) return;
+  fiber_t* c = fiber_create(FB_STACK / 2, rt_closer, (void*)(intptr_t)sv[0]);
+  char b[4];
+  ssize_t r = 0;
+  FB_BLOCKING(s, "C01 read (ended by close in another fiber)", r = read(sv[0], b, sizeof(b)));
+  (void)r;
+  fiber_join(c, NULL);
+  close(sv[1]);
+  vp_count("act_close_interrupted_read", 1);
+}
+
 typedef struct {
   int clique;  // -1 none
   int sv[2];
@@ -72,6 +91,7 @@ static void* worker(void* a) {
     vp_add(c_act[act], 1);
     switch (act) {
       case 0:
+        if (use_io && (vp_rand(&s->rng) & 15) == 0) interrupted_read(s);
         fiber_yield();
         break;
       case 1: {
@@ -207,6 +227,7 @@ static void* ureceiver(void* a) {
   const int c = (int)s->c;
   long got = 0;
   for (;;) {
+    if (use_io && (vp_rand(&s->rng) & 63) == 0) interrupted_read(s);
     fiber_unbounded_channel_message_t* m = fiber_unbounded_channel_try_receive(&uch[c]);
     if (m) {
       free(m);
@@ -235,6 +256,7 @@ static void* breceiver(void* a) {
   long got = 0;
   for (;;) {
     void* m = NULL;
+    if (use_io && (vp_rand(&s->rng) & 63) == 0) interrupted_read(s);
     if (fiber_bounded_channel_try_receive(bch[c], &m)) {
       ++got;
       continue;
